@@ -39,14 +39,15 @@ var c05Patterns = []string{
 	`[ab]*a[ab]{12}`, `(?s).*a.{10}b`, `(a?){20}a{20}`, `(?:x|xy|xyz)+w`, `.*[^a]a$`, `.+@.+\..+`, `\s*\S+\s*=\s*\S+`, `(?:foo|bar|baz)+qux`, `[a-z]+ing\b`,
 	`[a-c]+d|[a-c]+e`, `(?i)[a-z]+z9`, `x*y*z*w`, `(ab)*(ab)*(ab)*c`, `\pL+\d`, `[α-ω]+x`, `(é|e)+f`, `.*é.*日`, `a{2,}b{2,}c`, `(?:\w+\.)+com`, `^(?:[a-z0-9]+-)*[a-z0-9]+$`,
 	`[0-9][a-z.]+\.txt`, `\d\w+\.com`, `[A-Z][a-z ]+\.`, `[0-9][a-z ]*keyword[a-z ]*[0-9]`, `(?m)^[0-9].*\.php$`, `#[a-z]+(?:foo|bar|baz)`, `\d+\.\d+`, `[0-9]+x[0-9]+`,
+	`[a-z]+[0-9]+`, `[a-zA-Z]+[0-9]+[a-z]+`, `\d+\s+\w+`, `\w+\s+\w+`,
 	`\d\w*-`, `\d+foo|\d+bar`, `\d+x[\dx]*[-+]`, `(?:\d+\.)+x`, `(?m)^.*\d\.php`, `(?m)^[ab].*\.php`, `\d[a-z0-9]*X`, `\pL+`,
 	`error|warning|fatal|panic|critical|alert|emerg|notice|debug|trace|info`, `[0-9a-f]{8}-[0-9a-f]{4}`, `(?m)^\s*#.*$`, `(?m)^(\w+)=(.*)$`, `"(?:[^"\\]|\\.)*"`, `/\*.*?\*/`, `<[^>]+>`,
 }
 
 func init() {
-	register(&Prop{ID: "C05", N: 6000, Quick: 60, QuickFixed: uint64(72*9 + 16), Build: "cover", StallSec: 300, Workers: 12,
+	register(&Prop{ID: "C05", N: 6000, Quick: 60, QuickFixed: uint64(76*9 + 16), Build: "cover", StallSec: 300, Workers: 12,
 		Assume: []string{"work = number of executed coverage units (Go basic blocks, -covermode=atomic) of all coregex packages between ClearCounters and WriteCounters around ONE call: a deterministic proxy for time; assembly kernels are not counted (the Go loops that call them are)", "the existential constant of the property is fixed for monitoring: K = 400 units per (NFA state x haystack byte) plus a start-up term 200000 + 4000*states; the repaired tree's largest observed constant is recorded in the evidence", "a finite ladder cannot decide 'for all n': the rule reports sustained super-linear growth over 16x size or a bound excess up to 64 KiB"},
-		Rule:   "case i = (pattern, haystack family): patterns are 72 adversarial shapes (nested quantifiers, adjacent overlapping classes, reverse-suffix/inner/multiline, look-around, captures, alternations) and G(D,i) patterns (exemplars of all strategies and mutants); families: one-symbol run, two-symbol alternation, filler+literal, near-match (language sample without its last byte, repeated), sample repeated, longest pattern literal repeated without its context, seeded random walk over the pattern alphabet, digit runs, sample-per-line; ladder n = 64,128,...,65536 (quick: ...,8192); at every rung Match, FindIndex and FindSubmatchIndex are each called once on a warmed value, plus a cold FindIndex at 4096; violation if W > K*states*(n+1)+C0 at any rung, if the last four doubling ratios all exceed 2.4, or if a single call passes 3e8 units (the call is abandoned, the worker restarted); compile: limit families p_k (k up to 512) must satisfy W(Compile) <= 60*(len(p)+states)^2+3e6; one evaluation = one metered call; distinct_nontrivial = distinct (pattern, family, API, rung) with W above the 1e5 noise floor",
+		Rule:   "case i = (pattern, haystack family): patterns are 76 adversarial shapes (nested quantifiers, adjacent overlapping classes, reverse-suffix/inner/multiline, look-around, captures, alternations) and G(D,i) patterns (exemplars of all strategies and mutants); families: one-symbol run, two-symbol alternation, filler+literal, near-match (language sample without its last byte, repeated), sample repeated, longest pattern literal repeated without its context, seeded random walk over the pattern alphabet, digit runs, sample-per-line; ladder n = 64,128,...,65536 (quick: ...,8192); at every rung Match, FindIndex and FindSubmatchIndex are each called once on a warmed value, plus a cold FindIndex at 4096; violation if W > K*states*(n+1)+C0 at any rung, if the last four doubling ratios all exceed 2.4, or if a single call passes 3e8 units (the call is abandoned, the worker restarted); compile: limit families p_k (k up to 512) must satisfy W(Compile) <= 60*(len(p)+states)^2+3e6; one evaluation = one metered call; distinct_nontrivial = distinct (pattern, family, API, rung) with W above the 1e5 noise floor",
 		Init: func(w *W) {
 			if err := cov.Reset(); err != nil {
 				w.Inconclusive("coverage counters are not available: " + err.Error())
